@@ -88,6 +88,43 @@ bool prop(Tape &t, Report &R) {
         return "{\"history\":\"" + hist + "\",\"circuit\":" + s.json(16) + "}";
       });
   }
+  // occasionally also a large companion instance through the top-level call
+  // (decided at the very end of the tape so that older tapes keep their meaning)
+  uint32_t tail = t.next();
+  if (tail % 32 == 1) {
+    CircuitSpec big = genLargeCircuit(tail, o, 150);
+    if (big.nbMovable() > 0) {
+      R.classify(big.nbMovable() >= 100 ? "large:100+cells" : "large:<100cells");
+      DetailedObserver ob2;
+      ob2.checkWirelength = true;
+      TopLevelOutcome out = runTopLevel(big, params, ob2, excl);
+      if (out.discarded) {
+        if (out.discardWhy.rfind("known:", 0) == 0) R.exclude(out.discardWhy.substr(6));
+        return true;
+      }
+      if (!out.error.empty()) return R.fail(out.error + " " + big.json());
+    }
+  }
+  // the same case presented differently (decided after everything else): rows handed over in
+  // another order, on a Circuit object that was placed before with its fixed cells elsewhere
+  // and then brought to these contents through its setters
+  uint32_t hw = t.next();
+  if (hw % 3 == 1) {
+    CircuitSpec s2 = s;
+    R.classify(permuteRows(s2, hw >> 4));
+    std::string route;
+    Circuit h = buildWithHistory(s2, hw, [&](Circuit &c) { c.placeDetailed(params); }, &route);
+    R.classify("history:placeDetailed," + route + ",placeDetailed");
+    DetailedObserver ob3;
+    ob3.checkWirelength = true;
+    TopLevelOutcome out = runTopLevel(s2, params, ob3, excl, &h);
+    if (out.discarded) {
+      if (out.discardWhy.rfind("known:", 0) == 0) R.exclude(out.discardWhy.substr(6));
+      return true;
+    }
+    if (!out.error.empty())
+      return R.fail("on a circuit object placed before with its fixed cells elsewhere, then set to these contents with " + route + ": " + out.error + " " + s2.json());
+  }
   return true;
 }
 
